@@ -1,6 +1,7 @@
 package strings
 
 import (
+	"fmt"
 	"strings"
 )
 
@@ -32,8 +33,18 @@ func compare(a, b string) int {
 }
 
 //risor:export
-func repeat(s string, count int) string {
-	return strings.Repeat(s, count)
+func repeat(s string, count int) (result string, err error) {
+	if count < 0 {
+		return "", fmt.Errorf("value error: strings.repeat count must not be negative (got %d)", count)
+	}
+	// strings.Repeat panics when the result length overflows or is too
+	// large to allocate. Report that as an error instead.
+	defer func() {
+		if r := recover(); r != nil {
+			err = fmt.Errorf("value error: strings.repeat result is too large (%v)", r)
+		}
+	}()
+	return strings.Repeat(s, count), nil
 }
 
 //risor:export
